@@ -280,6 +280,20 @@ def oTouchRow (o : OTbl) (y : Int) : OTbl :=
     | none => o
     | some r => r.1
 
+/-- `t.get_row(y, clone=False).repeated = n` — the public setter on the table's own row.  The element
+    gets the new count; the setter then "walks up to the owner and recomputes its cache", but
+    `Element.parent` builds a NEW `Table` wrapper around the parent element, so the map that is
+    recomputed belongs to a throw-away object: the caller's table keeps its `_tmap` (and its wrapper
+    cache).  Known finding C02-F3; not a member of the proved alphabet. -/
+def oLiveRowRepeated (o : OTbl) (y : Int) (n : Nat) : Option OTbl :=
+  let yn := tr y (height o.t)
+  if yn ≥ height o.t then some o            -- `Row()` beyond the end: a lonely row
+  else
+    match getRowBase o yn with
+    | none => none
+    | some (o1, idx, _, d, _) =>
+      some { o1 with t := { o1.t with rows := { o1.t.rows with runs := o1.t.rows.runs.set idx (d, if n < 2 then 1 else n) } } }
+
 /-- the same reads on a table parsed afresh (no wrapper yet) -/
 def rowValuesFresh (t : Tbl) (y : Int) : List Nat :=
   let yn := tr y (height t)
